@@ -17,9 +17,12 @@ Mirrors, call by call:
 A panic inside an `extern "C"` function aborts the process: `StepRes.abort`.
 
 Environment parameters (`Env`): the canonical path of `gentl/src/imp/system/mod.rs` (what
-`SystemModule::full_path` computes) and the two embedded XML strings.  Everything else is a
-constant transcribed from the source.  Device enumeration is unimplemented in the crate
-(`enumerate_u3v_device` returns `NotImplemented`), so an interface never has devices.
+`SystemModule::full_path` computes), the two embedded XML strings, and the message texts and
+string / number constants of the source (`#[error("…")]` texts, vendor / model / id / version …;
+the harness reads them from the current source on every run).  The `GC_ERROR` numbers, the
+`INFO_DATATYPE` numbers, the register layouts and all control flow are transcribed here.  Device
+enumeration is unimplemented in the crate (`enumerate_u3v_device` returns `NotImplemented`), so
+an interface never has devices.
 
 Handles are modelled client-side as numbered slots holding `null`, a live system handle, a live
 interface handle, or a handle that was freed by a successful `TLClose`/`IFClose` (`freed`; using it
@@ -52,12 +55,18 @@ def upperHex (n : Nat) : Bytes := upperHexAux 16 n []
 
 /-! ## `GenTlError` and `GC_ERROR` (ffi/mod.rs, lib.rs) -/
 
+/-- payload of `GenTlError::InvalidValue`; the C layer only ever produces the first -/
+inductive InvalidValueMsg where
+  | stringNotAscii          -- `CopyTo for &str`: "string is not ascii"
+  | other (m : Bytes)
+  deriving DecidableEq, Repr
+
 inductive Err where
   | error | notInitialized | notImplemented | resourceInUse | accessDenied | invalidHandle
   | invalidId (id : Bytes)
   | noData | invalidParameter | io | timeout | abort | invalidBuffer | notAvailable
   | invalidAddress | bufferTooSmall | invalidIndex | parsingChunkData
-  | invalidValue (msg : Bytes)
+  | invalidValue (msg : InvalidValueMsg)
   | resourceExhausted | outOfMemory | busy | ambiguous
   deriving DecidableEq, Repr
 
@@ -71,31 +80,14 @@ def Err.code : Err → Int
   | .parsingChunkData => -1018 | .invalidValue _ => -1019 | .resourceExhausted => -1020
   | .outOfMemory => -1021 | .busy => -1022 | .ambiguous => -1023
 
-/-- `Display` of `GenTlError` (the `#[error("…")]` strings of lib.rs); `io` never arises here. -/
-def Err.text : Err → Bytes
-  | .error => asc "unspecified runtime error"
-  | .notInitialized => asc "module or resource not initialized"
-  | .notImplemented => asc "requested operation not implemented"
-  | .resourceInUse => asc "requested resource is already in use"
-  | .accessDenied => asc "the access to the requested register addresss is denied"
-  | .invalidHandle => asc "given handle does not support the operation"
-  | .invalidId id => asc "given ID doesn't reference any module or remote device: " ++ id
-  | .noData => asc "the function has no data to work on or the data does not provide reliable information"
-  | .invalidParameter => asc "one of the parameter given was not valid or out of range"
-  | .io => asc "communication error or connection lost: "
-  | .timeout => asc "operation timed out"
-  | .abort => asc "an operation has been aborted before it could be completed"
-  | .invalidBuffer => asc "the GenTL Consumer has not announced enough buffers to start the acquisition"
-  | .notAvailable => asc "resource or information is not available at a given time in a current state"
-  | .invalidAddress => asc "there is no register with the provided address"
-  | .bufferTooSmall => asc "a provided buffer is too small to receive the expected amount of data"
-  | .invalidIndex => asc "given index is out of range"
-  | .parsingChunkData => asc "an error occurred parsing a buffer containing chunk data"
-  | .invalidValue m => asc "an invalid value has been written: " ++ m
-  | .resourceExhausted => asc "a requested resource is exhausted"
-  | .outOfMemory => asc "the system and/or other hardware in the system (frame grabber) ran out of memory"
-  | .busy => asc "the required operation cannot be executed because the responsible module/entity is busy"
-  | .ambiguous => asc "the required operation cannot be executed unambiguously in given"
+/-- position of the variant in the `GenTlError` declaration (= `-1001 - code`) -/
+def Err.idx : Err → Nat
+  | .error => 0 | .notInitialized => 1 | .notImplemented => 2 | .resourceInUse => 3
+  | .accessDenied => 4 | .invalidHandle => 5 | .invalidId _ => 6 | .noData => 7
+  | .invalidParameter => 8 | .io => 9 | .timeout => 10 | .abort => 11 | .invalidBuffer => 12
+  | .notAvailable => 13 | .invalidAddress => 14 | .bufferTooSmall => 15 | .invalidIndex => 16
+  | .parsingChunkData => 17 | .invalidValue _ => 18 | .resourceExhausted => 19 | .outOfMemory => 20
+  | .busy => 21 | .ambiguous => 22
 
 abbrev GR (α : Type) := Res Err α
 
@@ -117,7 +109,7 @@ def Val.dtype : Val → Nat
 
 /-- The bytes `copy_to` wants to store (strings: ASCII check, then the NUL terminator). -/
 def Val.image : Val → GR Bytes
-  | .str s => if isAscii s then .ok (s ++ [0]) else .err (.invalidValue (asc "string is not ascii"))
+  | .str s => if isAscii s then .ok (s ++ [0]) else .err (.invalidValue .stringNotAscii)
   | .buffer b => .ok b
   | .i32 v => .ok (toLE 4 v)
   | .u32 v => .ok (toLE 4 v)
@@ -254,7 +246,29 @@ def liftMem {α : Type} : Res MemErr α → GR α
 
 /-! ## The two register maps (imp/system/genapi.rs, imp/interface/u3v_genapi.rs) -/
 
-/-- What the run-time environment fixes. -/
+/-- The string / number constants of one module (`genapi.rs` / `u3v_genapi.rs`, `PortInfo`). -/
+structure ModConsts where
+  /-- `PRODUCT_GUID` = `TLID` / `INTERFACE_ID` -/
+  id : Bytes
+  vendor : Bytes
+  model : Bytes
+  /-- `TlType::as_str` of `TL_TYPE` / `INTERFACE_TYPE` -/
+  tlType : Bytes
+  /-- `TOOL_TIP` (TL_INFO_DISPLAYNAME) / `display_name()` of the interface -/
+  displayName : Bytes
+  portName : Bytes
+  /-- `CopyTo for ModuleType` string -/
+  moduleType : Bytes
+  /-- `XML_MAJOR/MINOR/SUBMINOR_VERSION` -/
+  verMajor : Nat
+  verMinor : Nat
+  verSub : Nat
+
+/-- What the run-time environment and the source constants fix.  The harness reads the texts and
+constants from the CURRENT source (`gentl/src/lib.rs` `#[error("…")]`, `genapi.rs`,
+`u3v_genapi.rs`, `genapi_common.rs`, …) on every run, so that rewording a message or bumping a
+version is not a model/implementation disagreement; what the values must agree WITH (the embedded
+XML, each other) is the oracle's business.  The theorems hold for every `Env`. -/
 structure Env where
   /-- canonical path of `gentl/src/imp/system/mod.rs` (`SystemModule::full_path`) -/
   path : Bytes
@@ -262,6 +276,35 @@ structure Env where
   sysXml : Bytes
   /-- `GENAPI_XML` of the U3V interface module -/
   ifXml : Bytes
+  /-- `Display` text of the `GenTlError` variant at `Err.idx` (up to the `{0}` placeholder) -/
+  errText : Nat → Bytes
+  /-- text `GCGetLastError` reports when no call has failed -/
+  noErrorText : Bytes
+  /-- message of the `InvalidValue` raised by `CopyTo for &str` -/
+  notAsciiText : Bytes
+  sys : ModConsts
+  ifc : ModConsts
+  /-- `GENTL_VERSION_MAJOR/MINOR` -/
+  gentlMajor : Nat
+  gentlMinor : Nat
+  /-- `SCHEME_MAJOR/MINOR/SUBMINOR_VERSION` -/
+  schemaMajor : Nat
+  schemaMinor : Nat
+  schemaSub : Nat
+
+/-- decimal rendering (`{}` of an integer) -/
+def dec (n : Nat) : Bytes := asc (toString n)
+
+/-- `format!("{}.{}.{}", major, minor, subminor)` -/
+def ModConsts.version (c : ModConsts) : Bytes :=
+  dec c.verMajor ++ asc "." ++ dec c.verMinor ++ asc "." ++ dec c.verSub
+
+/-- `Display` of `GenTlError` (`#[error("…")]` in lib.rs); `io` never arises here. -/
+def Err.text (env : Env) : Err → Bytes
+  | .invalidId id => env.errText 6 ++ id
+  | .invalidValue .stringNotAscii => env.errText 18 ++ env.notAsciiText
+  | .invalidValue (.other m) => env.errText 18 ++ m
+  | e => env.errText e.idx
 
 def SYS_XML_ADDRESS : Nat := 1120
 def IF_XML_ADDRESS : Nat := 336
@@ -305,16 +348,10 @@ def zeros (n : Nat) : Bytes := List.replicate n 0
 /-- String register image: the bytes, zero-padded to the register length. -/
 def padTo (n : Nat) (b : Bytes) : Bytes := b ++ zeros (n - b.length)
 
-def TLID : Bytes := asc "C09F0257-3F5C-41C2-B34F-FE67CB108370"
-def INTERFACE_ID : Bytes := asc "639290f8-043c-436d-b8d1-cb916e2928e9"
-def VENDOR_NAME : Bytes := asc "CameleonProjectDevelopers"
-def SYS_MODEL_NAME : Bytes := asc "CameleonGenTLSystemModule"
-def IF_MODEL_NAME : Bytes := asc "CameleonGenTLU3VInterfaceModule"
-
 /-- `genapi::Memory::new()` + `SystemModule::initialize_vm`: TlPath, InterfaceSelector = 0,
 InterfaceID of interface 0 (no MAC/IP: the U3V interface has none), InterfaceSelectorMax = 0, XML. -/
 def sysMemInit (env : Env) : Bytes :=
-  padTo 1024 env.path ++ zeros 4 ++ zeros 4 ++ zeros 4 ++ padTo 64 INTERFACE_ID
+  padTo 1024 env.path ++ zeros 4 ++ zeros 4 ++ zeros 4 ++ padTo 64 env.ifc.id
     ++ zeros 8 ++ zeros 4 ++ zeros 4 ++ zeros 4 ++ env.sysXml
 
 /-- `u3v_genapi::Memory::new()` + `initialize_vm`: selector and selector-max 0, XML. -/
@@ -363,24 +400,24 @@ def State.setSlot (s : State) (k : Nat) (v : Slot) : State :=
 `>= NUM_INTERFACE` ⇒ `InvalidIndex`, else re-write the InterfaceID register (the only interface
 has no MAC / IP / subnet / gateway).  `vm.write::<InterfaceID>` notifies range 1036..1100, which
 no observer covers. -/
-def sysSelectorChange (mem : Bytes) : Res Err Bytes :=
+def sysSelectorChange (env : Env) (mem : Bytes) : Res Err Bytes :=
   match slice (ε := Err) mem 1028 1032 with
   | .ok sel =>
     if fromLE sel ≥ NUM_INTERFACE then .err .invalidIndex
-    else splice mem 1036 (padTo 64 INTERFACE_ID)
+    else splice mem 1036 (padTo 64 env.ifc.id)
   | .err e => .err e
   | .panic => .panic
 
 /-- `SystemModule::handle_events`: pop the queue front to back; the first failing handler returns
 its error and leaves the rest queued.  Result: memory, remaining queue, outcome. -/
-def sysHandleEvents : Bytes → List Event → Bytes × List Event × Res Err Unit
+def sysHandleEvents (env : Env) : Bytes → List Event → Bytes × List Event × Res Err Unit
   | mem, [] => (mem, [], .ok ())
   | mem, .interfaceSelector :: q =>
-    match sysSelectorChange mem with
-    | .ok mem' => sysHandleEvents mem' q
+    match sysSelectorChange env mem with
+    | .ok mem' => sysHandleEvents env mem' q
     | .err e => (mem, q, .err e)
     | .panic => (mem, q, .panic)
-  | mem, _ :: q => sysHandleEvents mem q   -- InterfaceUpdateList: nothing to do
+  | mem, _ :: q => sysHandleEvents env mem q   -- InterfaceUpdateList: nothing to do
 
 /-- `U3VInterfaceModule::handle_events` with an empty device list: `DeviceUpdateList` runs
 `update_device_list`, whose `enumerate_u3v_device()?` is `Err(NotImplemented)`;
@@ -417,7 +454,7 @@ def sysWrite (env : Env) (s : State) (address : Nat) (data : Bytes) : State × G
     | .err e => (s, .err e.toErr)
     | .panic => (s, .panic)
     | .ok (mem, evs) =>
-      match sysHandleEvents mem (s.sysQueue ++ evs) with
+      match sysHandleEvents env mem (s.sysQueue ++ evs) with
       | (mem', q, .ok ()) => ({ s with sysMem := mem', sysQueue := q }, .ok data.length)
       | (mem', q, .err e) => ({ s with sysMem := mem', sysQueue := q }, .err e)
       | (_, _, .panic) => (s, .panic)
@@ -489,24 +526,24 @@ def fileName (path : Bytes) : Option Bytes :=
 
 /-- `TLGetInfo` dispatch (ffi/system.rs): `TL_INFO_CMD` → value.  `none` = `InvalidParameter`. -/
 def tlInfo (env : Env) (cmd : Int) : Option (Res Err Val) :=
-  if cmd = 0 then some (.ok (.str TLID))
-  else if cmd = 1 then some (.ok (.str VENDOR_NAME))
-  else if cmd = 2 then some (.ok (.str SYS_MODEL_NAME))
-  else if cmd = 3 then some (.ok (.str (asc "1.0.0")))
-  else if cmd = 4 then some (.ok (.str (asc "Mixed")))
+  if cmd = 0 then some (.ok (.str env.sys.id))
+  else if cmd = 1 then some (.ok (.str env.sys.vendor))
+  else if cmd = 2 then some (.ok (.str env.sys.model))
+  else if cmd = 3 then some (.ok (.str env.sys.version))
+  else if cmd = 4 then some (.ok (.str env.sys.tlType))
   else if cmd = 5 then some (match fileName env.path with | some n => .ok (.str n) | none => .panic)
   else if cmd = 6 then some (.ok (.str env.path))
-  else if cmd = 7 then some (.ok (.str (asc "GenTL System Module")))
-  else if cmd = 8 then some (.ok (.i32 0))          -- CharEncoding::Ascii
-  else if cmd = 9 then some (.ok (.u32 1))          -- GENTL_VERSION_MAJOR
-  else if cmd = 10 then some (.ok (.u32 6))         -- GENTL_VERSION_MINOR
+  else if cmd = 7 then some (.ok (.str env.sys.displayName))
+  else if cmd = 8 then some (.ok (.i32 0))                    -- CharEncoding::Ascii
+  else if cmd = 9 then some (.ok (.u32 env.gentlMajor))
+  else if cmd = 10 then some (.ok (.u32 env.gentlMinor))
   else none
 
 /-- `if_get_info` dispatch (ffi/interface.rs): `INTERFACE_INFO_CMD` → value. -/
-def ifInfo (cmd : Int) : Option Val :=
-  if cmd = 0 then some (.str INTERFACE_ID)
-  else if cmd = 1 then some (.str (asc "U3V Interface Module"))
-  else if cmd = 2 then some (.str (asc "U3V"))
+def ifInfo (env : Env) (cmd : Int) : Option Val :=
+  if cmd = 0 then some (.str env.ifc.id)
+  else if cmd = 1 then some (.str env.ifc.displayName)
+  else if cmd = 2 then some (.str env.ifc.tlType)
   else none
 
 def xmlAddress : Module → Nat
@@ -517,43 +554,46 @@ def xmlLength (env : Env) : Module → Nat
   | .system => env.sysXml.length
   | .interface => env.ifXml.length
 
-def modelName : Module → Bytes
-  | .system => SYS_MODEL_NAME
-  | .interface => IF_MODEL_NAME
+def Env.consts (env : Env) : Module → ModConsts
+  | .system => env.sys
+  | .interface => env.ifc
 
-/-- `file_location_to_url` for `XmlLocation::RegisterMap`, uncompressed, file version 1.0.0,
-schema version 1.1.0 -/
+/-- `file_location_to_url` for `XmlLocation::RegisterMap`, uncompressed -/
 def portUrl (env : Env) (m : Module) : Bytes :=
-  asc "local:" ++ VENDOR_NAME ++ asc "_" ++ modelName m ++ asc "_1.0.0.xml;"
+  let c := env.consts m
+  asc "local:" ++ c.vendor ++ asc "_" ++ c.model ++ asc "_" ++ c.version ++ asc ".xml;"
     ++ upperHex (xmlAddress m) ++ asc ";" ++ upperHex (xmlLength env m)
-    ++ asc "?SchemaVersion=1.1.0"
+    ++ asc "?SchemaVersion=" ++ dec env.schemaMajor ++ asc "." ++ dec env.schemaMinor ++ asc "."
+    ++ dec env.schemaSub
 
 /-- `GCGetPortInfo` dispatch (ffi/port.rs): `PORT_INFO_CMD` → value, both modules are
 little-endian with `PortAccess::RW`. -/
-def portInfo (m : Module) (cmd : Int) : Option Val :=
-  if cmd = 0 then some (.str (match m with | .system => TLID | .interface => INTERFACE_ID))
-  else if cmd = 1 then some (.str VENDOR_NAME)
-  else if cmd = 2 then some (.str (modelName m))
-  else if cmd = 3 then some (.str (match m with | .system => asc "Mixed" | .interface => asc "U3V"))
-  else if cmd = 4 then some (.str (match m with | .system => asc "TLSystem" | .interface => asc "TLInterface"))
+def portInfo (env : Env) (m : Module) (cmd : Int) : Option Val :=
+  let c := env.consts m
+  if cmd = 0 then some (.str c.id)
+  else if cmd = 1 then some (.str c.vendor)
+  else if cmd = 2 then some (.str c.model)
+  else if cmd = 3 then some (.str c.tlType)
+  else if cmd = 4 then some (.str c.moduleType)
   else if cmd = 5 then some (.bool8 true)    -- LITTLE_ENDIAN
   else if cmd = 6 then some (.bool8 false)   -- BIG_ENDIAN
   else if cmd = 7 then some (.bool8 true)    -- ACCESS_READ
   else if cmd = 8 then some (.bool8 true)    -- ACCESS_WRITE
   else if cmd = 9 then some (.bool8 false)   -- ACCESS_NA
   else if cmd = 10 then some (.bool8 false)  -- ACCESS_NI
-  else if cmd = 11 then some (.str (asc "1.0.0"))
-  else if cmd = 12 then some (.str (match m with | .system => asc "TLPort" | .interface => asc "InterfacePort"))
+  else if cmd = 11 then some (.str c.version)
+  else if cmd = 12 then some (.str c.portName)
   else none
 
 /-- `GCGetPortURLInfo` dispatch for URL index 0 (`sha1_hash = None`, register-map location). -/
 def urlInfo (env : Env) (m : Module) (cmd : Int) : GR Val :=
+  let c := env.consts m
   if cmd = 0 then .ok (.str (portUrl env m))
-  else if cmd = 1 then .ok (.i32 1)   -- schema major
-  else if cmd = 2 then .ok (.i32 1)   -- schema minor
-  else if cmd = 3 then .ok (.i32 1)   -- file major
-  else if cmd = 4 then .ok (.i32 0)   -- file minor
-  else if cmd = 5 then .ok (.i32 0)   -- file subminor
+  else if cmd = 1 then .ok (.i32 env.schemaMajor)
+  else if cmd = 2 then .ok (.i32 env.schemaMinor)
+  else if cmd = 3 then .ok (.i32 c.verMajor)
+  else if cmd = 4 then .ok (.i32 c.verMinor)
+  else if cmd = 5 then .ok (.i32 c.verSub)
   else if cmd = 6 then .err .notAvailable          -- no SHA1
   else if cmd = 7 then .ok (.u64 (xmlAddress m))
   else if cmd = 8 then .ok (.u64 (xmlLength env m))
@@ -737,7 +777,7 @@ state, index and command dispatch.  The value does not depend on the destination
 def queryValue (env : Env) (s : State) : Query → GR Val
   | .tlGetInterfaceID h index =>
     match wantSystem (s.slots h) with
-    | .ok () => if index % 2 ^ 32 ≥ NUM_INTERFACE then .err .invalidIndex else .ok (.str INTERFACE_ID)
+    | .ok () => if index % 2 ^ 32 ≥ NUM_INTERFACE then .err .invalidIndex else .ok (.str env.ifc.id)
     | .err e => .err e
     | .panic => .panic
   | .tlGetInfo h cmd =>
@@ -751,8 +791,8 @@ def queryValue (env : Env) (s : State) : Query → GR Val
   | .tlGetInterfaceInfo h id cmd =>
     match wantSystem (s.slots h) with
     | .ok () =>
-      if id ≠ INTERFACE_ID then .err (.invalidId id)
-      else (match ifInfo cmd with
+      if id ≠ env.ifc.id then .err (.invalidId id)
+      else (match ifInfo env cmd with
             | some v => .ok v
             | none => .err .invalidParameter)
     | .err e => .err e
@@ -760,7 +800,7 @@ def queryValue (env : Env) (s : State) : Query → GR Val
   | .ifGetInfo h cmd =>
     match wantInterface (s.slots h) with
     | .ok () =>
-      (match ifInfo cmd with
+      (match ifInfo env cmd with
        | some v => .ok v
        | none => .err .invalidParameter)
     | .err e => .err e
@@ -770,7 +810,7 @@ def queryValue (env : Env) (s : State) : Query → GR Val
     | .ok m =>
       (match portMeta s m with
        | .ok () =>
-         (match portInfo m cmd with
+         (match portInfo env m cmd with
           | some v => .ok v
           | none => .err .invalidParameter)
        | .err e => .err e
@@ -819,12 +859,12 @@ def body (env : Env) (s : State) (c : Call) : Ret :=
   | .getLastError d =>
     match s.lastErr with
     | some e =>
-      (match copyTo (.str e.text) d with
+      (match copyTo (.str (e.text env)) d with
        | .ok d' => ret (.ok (.lastError (some e.code) d'))
        | .err x => fail x
        | .panic => ret .panic)
     | none =>
-      (match copyTo (.str (asc "No Error")) d with
+      (match copyTo (.str env.noErrorText) d with
        | .ok d' => ret (.ok (.lastError (some 0) d'))
        | .err x => fail x
        | .panic => ret .panic)
@@ -853,7 +893,7 @@ def body (env : Env) (s : State) (c : Call) : Ret :=
   | .tlOpenInterface h id dst =>
     match wantSystem (s.slots h) with
     | .ok () =>
-      if id ≠ INTERFACE_ID then fail (.invalidId id)
+      if id ≠ env.ifc.id then fail (.invalidId id)
       else if s.ifOpen then fail .resourceInUse
       else ⟨({ s with ifOpen := true }).setSlot dst .iface, .ok .plain, .plain⟩
     | .err e => fail e
@@ -946,12 +986,15 @@ def body (env : Env) (s : State) (c : Call) : Ret :=
     | .panic => ret .panic
 
 /-- The caller owns what it claims: a read buffer of at least `size` bytes, write data of exactly
-`size` bytes (also per stacked entry).  Trivially true of every other call. -/
+`size` bytes (also per stacked entry) — or the size is one no buffer can have (`> isize::MAX`),
+which the entry points refuse before looking at the buffer.  Trivially true of every other call. -/
 def Call.honest : Call → Bool
-  | .gcReadPort _ _ size buf => decide (size ≤ buf.length)
-  | .gcWritePort _ _ size data => decide (data.length = size)
-  | .gcReadPortStacked _ es => es.all fun e => decide (e.2.1 ≤ e.2.2.length)
-  | .gcWritePortStacked _ es => es.all fun e => decide (e.2.2.length = e.2.1)
+  | .gcReadPort _ _ size buf => decide (size ≤ buf.length) || decide (size > ISIZE_MAX)
+  | .gcWritePort _ _ size data => decide (data.length = size) || decide (size > ISIZE_MAX)
+  | .gcReadPortStacked _ es =>
+    es.any (fun e => decide (e.2.1 > ISIZE_MAX)) || es.all fun e => decide (e.2.1 ≤ e.2.2.length)
+  | .gcWritePortStacked _ es =>
+    es.any (fun e => decide (e.2.1 > ISIZE_MAX)) || es.all fun e => decide (e.2.2.length = e.2.1)
   | _ => true
 
 /-- `no_assert` entry points (only `GCInitLib`). -/
@@ -965,20 +1008,28 @@ def usesFreed (s : State) (c : Call) : Bool :=
   | some h => s.slots h == .freed
   | none => false
 
-/-- The second half of `gentl_api!`: `code = (&res).into(); save_last_error(res); code`. -/
-def finish (r : Ret) : StepRes :=
+/-- `no_save` entry points: `GCGetLastError` (also when it is refused for a NULL parameter) does
+not store its own failure — it would replace the error it is asked about. -/
+def Call.noSave : Call → Bool
+  | .getLastError _ => true
+  | .nullPtr c => c.noSave
+  | _ => false
+
+/-- The second half of `gentl_api!`: `code = (&res).into(); save_last_error(res); code`
+(`save = false`: the `no_save` variant, which only converts). -/
+def finish (save : Bool) (r : Ret) : StepRes :=
   match r.res with
   | .ok o => .done r.st ⟨0, o⟩
-  | .err e => .done { r.st with lastErr := some e } ⟨e.code, r.errOut⟩
+  | .err e => .done (if save then { r.st with lastErr := some e } else r.st) ⟨e.code, r.errOut⟩
   | .panic => .abort
 
 /-- One C call. -/
 def step (env : Env) (s : State) (c : Call) : StepRes :=
   if !c.noAssert && !s.libInit then
     -- `assert_lib_initialized()?` — before any argument is looked at
-    finish ⟨s, .err .notInitialized, c.untouched⟩
+    finish (!c.noSave) ⟨s, .err .notInitialized, c.untouched⟩
   else if usesFreed s c then .done s ⟨0, .skipped⟩
-  else finish (body env s c)
+  else finish (!c.noSave) (body env s c)
 
 /-- A call sequence; stops at an abort.  Returns the results so far, the final state (if the
 process survived) . -/
